@@ -23,6 +23,8 @@ EXTRA = {
     "deep": "local function f()\n  local function g()\n    return undefined_deep\n  end\n  return g\nend\nreturn f\n",
     "tabs": "\tlocal\tunused_tab = 1\n\t\tprint(undefined_tab)\n",
     # a file saved as "UTF-8 with BOM": whatever the tool makes of the mark, every style describes the bytes on disk
+    # a label that spans more than a hundred lines, followed by another diagnostic (luacheck mode repeats a record per line)
+    "longspan": "print(math.floor({\n" + "".join(f"  item_{i} = {i},\n" for i in range(150)) + "}))\nprint(undefined_after_long)\nlocal unused_after_long = 1\n",
     "bom": "\ufefflocal unused_bom = 1\nprint(undefined_bom)\n",
     "bom_crlf": "\ufeffprint(undefined_bom)\r\nlocal unused_bom = 1\r\n",
 }
@@ -82,6 +84,7 @@ def one_case(ctx, lines, d, fname, src, cfg=()):
     cfg = list(cfg)
     styles = {}
     diags_sx, locs = [], []
+    full_spans = []      # (row, last line of the primary label) of every json2 diagnostic
     # json2 first: byte ranges
     rc, out, err = cli.run_selene(cfg + ["--display-style", "json2", "--num-threads", "1", "--no-summary", fname], d)
     if crashed(err):
@@ -96,6 +99,7 @@ def one_case(ctx, lines, d, fname, src, cfg=()):
             sp = x["primary_label"]["span"]
             sev = x["severity"].lower()
             rows.append((x["primary_label"]["filename"], x["code"], sev, sp["start_line"] + 1, sp["start_column"] + 1, x["message"]))
+            full_spans.append((rows[-1], sp["end_line"] + 1))
             diags_sx.append(f"({cli.sq(x['primary_label']['filename'])} {cli.sq(x['code'])} {sev} {sp['start']} {sp['end']} {cli.sq(x['message'])})")
             locs.append(f"({sp['start']} {sp['start_line']} {sp['start_column']})")
             locs.append(f"({sp['end']} {sp['end_line']} {sp['end_column']})")
@@ -137,12 +141,20 @@ def one_case(ctx, lines, d, fname, src, cfg=()):
                 if out and not out.endswith("\n"):
                     ctx.violation("implementation violates the specification: the luacheck-compatible output ends in the middle of a record (no line end)",
                                   f"file: {os.path.join(d, fname)}\nconfiguration arguments: {' '.join(cfg) or '(default)'}\ntail: {out[-200:]!r}\nsource:\n{src[:600]}")
-            ref_keys = {(r[0], r[1], r[2], r[5]) for r in ref}
-            # keep first row per diagnostic: rows that coincide with a reference start, drop continuation rows (column 1 of a later line)
+            # keep first row per diagnostic: rows that coincide with a reference start; the continuation rows of a diagnostic whose
+            # label spans several lines are exactly one per further line of THAT label, in column 1 — anything else is a record of its own
             refset = set(ref)
             first = [r for r in rows if r in refset]
             cont = [r for r in rows if r not in refset]
-            bad_cont = [r for r in cont if not (r[4] == 1 and (r[0], r[1], r[2], r[5]) in ref_keys)]
+            allowed = []
+            for (f, code, sev, l, c, msg), end_l in full_spans:
+                allowed += [(f, code, sev, k, 1, msg) for k in range(l + 1, end_l + 1)]
+            bad_cont = []
+            for r in cont:
+                if r in allowed:
+                    allowed.remove(r)
+                else:
+                    bad_cont.append(r)
             styles[name] = first + bad_cont + [x for x in ref if x[1] == "parse_error"]  # parse errors use the codespan path in every mode
     rc, out, err = cli.run_selene(cfg + ["--luacheck", "--ranges", "--num-threads", "1", fname], d)
     if crashed(err):
